@@ -20,7 +20,8 @@ func init() {
 			"D2 constructors build a map made in the call and store, per visited association, exactly its key and value; " +
 			"D3 views are materialised from the ranged key and value of the same entry; " +
 			"D4 the loops of the map type and its class are in terminating forms." +
-			" Also: a loop that deletes entries is not bounded by the map's live size; the views take each value from the visited entry, never from a second lookup of its key (NaN keys).",
+			" Also: a loop that deletes entries is not bounded by the map's live size; the views take each value from the visited entry, never from a second lookup of its key (NaN keys)." +
+			" Round 7: no nil literal reaches a result of collection interface type; a ranged Go map is not read back by key.",
 		NotDecided: "equivalence with a Go map over histories is the language's own semantics once the methods are the direct wrappers D1 shows them to be; iteration order of views is unspecified by design.",
 		Run:        runC14,
 	})
